@@ -40,31 +40,70 @@ theorem transparent_or (t : IntTy) (l r : ST) : ST.bor t l r = ST.mk (t.bor l.ge
 theorem transparent_xor (t : IntTy) (l r : ST) : ST.bxor t l r = ST.mk (t.bxor l.get r.get) := rfl
 theorem transparent_not (t : IntTy) (x : ST) : ST.bnot t x = ST.mk (t.bnot x.get) := rfl
 
-/-- `l op= r` leaves in `l` exactly what `l op r` returns, and the returned reference shows it -/
-theorem transparent_add_assign (t : IntTy) (l r : ST) : ST.addAssign t l r = (ST.add t l r).map fun s => (s, s) := by
-  unfold ST.addAssign ST.add; cases t.add l.get r.get <;> rfl
-theorem transparent_sub_assign (t : IntTy) (l r : ST) : ST.subAssign t l r = (ST.sub t l r).map fun s => (s, s) := by
-  unfold ST.subAssign ST.sub; cases t.sub l.get r.get <;> rfl
-theorem transparent_mul_assign (t : IntTy) (l r : ST) : ST.mulAssign t l r = (ST.mul t l r).map fun s => (s, s) := by
-  unfold ST.mulAssign ST.mul; cases t.mul l.get r.get <;> rfl
-theorem transparent_and_assign (t : IntTy) (l r : ST) : ST.andAssign t l r = (ST.band t l r, ST.band t l r) := rfl
-theorem transparent_or_assign (t : IntTy) (l r : ST) : ST.orAssign t l r = (ST.bor t l r, ST.bor t l r) := rfl
-theorem transparent_xor_assign (t : IntTy) (l r : ST) : ST.xorAssign t l r = (ST.bxor t l r, ST.bxor t l r) := rfl
+/-- `l op= r` is the compound assignment of the wrapped type on the wrapped values: its result is left in `l` and the
+returned reference shows it -/
+theorem transparent_add_assign (t : IntTy) (l r : ST) :
+    ST.addAssign t l r = (t.addAssign l.get r.get).map fun v => (ST.mk v, ST.mk v) := by
+  unfold ST.addAssign; cases t.addAssign l.get r.get <;> rfl
+theorem transparent_sub_assign (t : IntTy) (l r : ST) :
+    ST.subAssign t l r = (t.subAssign l.get r.get).map fun v => (ST.mk v, ST.mk v) := by
+  unfold ST.subAssign; cases t.subAssign l.get r.get <;> rfl
+theorem transparent_mul_assign (t : IntTy) (l r : ST) :
+    ST.mulAssign t l r = (t.mulAssign l.get r.get).map fun v => (ST.mk v, ST.mk v) := by
+  unfold ST.mulAssign; cases t.mulAssign l.get r.get <;> rfl
+theorem transparent_and_assign (t : IntTy) (l r : ST) :
+    ST.andAssign t l r = (ST.mk (t.andAssign l.get r.get), ST.mk (t.andAssign l.get r.get)) := rfl
+theorem transparent_or_assign (t : IntTy) (l r : ST) :
+    ST.orAssign t l r = (ST.mk (t.orAssign l.get r.get), ST.mk (t.orAssign l.get r.get)) := rfl
+theorem transparent_xor_assign (t : IntTy) (l r : ST) :
+    ST.xorAssign t l r = (ST.mk (t.xorAssign l.get r.get), ST.mk (t.xorAssign l.get r.get)) := rfl
 
-/-- `++x`: operand and result are both `x + 1` of the underlying type -/
+/-- `++x`: operand and result are both the incremented value of the underlying type -/
 theorem transparent_pre_inc (t : IntTy) (x : ST) :
-    ST.preInc t x = (t.add x.get 1).map fun v => (ST.mk v, ST.mk v) := by
-  unfold ST.preInc; cases t.add x.get 1 <;> rfl
+    ST.preInc t x = (t.inc x.get).map fun v => (ST.mk v, ST.mk v) := by
+  unfold ST.preInc; cases t.inc x.get <;> rfl
 theorem transparent_pre_dec (t : IntTy) (x : ST) :
-    ST.preDec t x = (t.sub x.get 1).map fun v => (ST.mk v, ST.mk v) := by
-  unfold ST.preDec; cases t.sub x.get 1 <;> rfl
-/-- `x++`: the operand becomes `x + 1`, the result is the old value -/
+    ST.preDec t x = (t.dec x.get).map fun v => (ST.mk v, ST.mk v) := by
+  unfold ST.preDec; cases t.dec x.get <;> rfl
+/-- `x++`: the operand becomes the incremented value, the result is the old value -/
 theorem transparent_post_inc (t : IntTy) (x : ST) :
-    ST.postInc t x = (t.add x.get 1).map fun v => (ST.mk v, x) := by
-  unfold ST.postInc ST.preInc; cases t.add x.get 1 <;> rfl
+    ST.postInc t x = (t.inc x.get).map fun v => (ST.mk v, x) := by
+  unfold ST.postInc ST.preInc; cases t.inc x.get <;> rfl
 theorem transparent_post_dec (t : IntTy) (x : ST) :
-    ST.postDec t x = (t.sub x.get 1).map fun v => (ST.mk v, x) := by
-  unfold ST.postDec ST.preDec; cases t.sub x.get 1 <;> rfl
+    ST.postDec t x = (t.dec x.get).map fun v => (ST.mk v, x) := by
+  unfold ST.postDec ST.preDec; cases t.dec x.get <;> rfl
+
+/-- members: writing through `get()`, copy assignment, `strong_typedef_map`, `strong_typedef_apply`,
+`strong_typedef_construct_cast` all act on the one wrapped value -/
+theorem transparent_members (x y : ST) (v : Int) (f : Int → Int) (g : Int → Int → Int) :
+    (ST.set x v).get = v ∧ ST.assign x y = (y, y) ∧ (ST.map f x).get = f x.get ∧
+    (ST.apply2 g x y).get = g x.get y.get ∧ (ST.constructCast f v).get = f v := ⟨rfl, rfl, rfl, rfl, rfl⟩
+
+/-- the operators are `strong_typedef_apply` / `strong_typedef_map` of the plain operators -/
+theorem transparent_ops_are_apply (t : IntTy) (l r : ST) :
+    ST.band t l r = ST.apply2 t.band l r ∧ ST.bor t l r = ST.apply2 t.bor l r ∧ ST.bxor t l r = ST.apply2 t.bxor l r ∧
+    ST.bnot t l = ST.map t.bnot l := ⟨rfl, rfl, rfl, rfl⟩
+
+/-- the same object on both sides (`x -= x`, `x ^= x`): zero, whatever the type -/
+theorem self_assign_ops_zero (t : IntTy) (x : ST) :
+    ST.subAssign t x x = .ok (ST.mk 0, ST.mk 0) ∧ ST.xorAssign t x x = (ST.mk 0, ST.mk 0) := by
+  constructor
+  · have h0 : t.promoted.arith 0 = .ok 0 := by
+      by_cases hw : t.bits < 32
+      · rw [IntTy.promoted_narrow t hw]; rfl
+      · rw [IntTy.promoted_wide t hw]
+        cases hs : t.signed with
+        | true =>
+          apply IntTy.arith_signed_ok t hs
+          have := IntTy.two_pow_pos (t.bits - 1)
+          unfold IntTy.Repr IntTy.lo IntTy.hi; simp only [hs, if_true]; omega
+        | false => rw [IntTy.arith_unsigned t hs]; simp
+    unfold ST.subAssign IntTy.subAssign IntTy.sub
+    rw [Int.sub_self, h0]
+    show (Except.ok (ST.mk (t.conv 0), ST.mk (t.conv 0)) : M (ST × ST)) = _
+    rw [IntTy.conv_zero]
+  · unfold ST.xorAssign IntTy.xorAssign
+    rw [IntTy.bxor_self, IntTy.conv_zero]
 
 /-- the six comparison operators are those of the wrapped values -/
 theorem transparent_comparison (l r : ST) :
@@ -103,6 +142,92 @@ theorem int_arith_closed (t : IntTy) (a b v : Int) :
     (t.add a b = .ok v → t.Repr v) ∧ (t.sub a b = .ok v → t.Repr v) ∧ (t.mul a b = .ok v → t.Repr v) ∧
     (t.neg a = .ok v → t.Repr v) :=
   ⟨IntTy.arith_repr t _ v, IntTy.arith_repr t _ v, IntTy.arith_repr t _ v, IntTy.arith_repr t _ v⟩
+
+/-! ### compound assignment of the underlying type: integral promotion for the types narrower than `int` -/
+
+/-- conversion to the type: identity on its values, always lands in the type, congruent modulo 2^bits -/
+theorem int_conv_spec (t : IntTy) (hb : 0 < t.bits) (x : Int) :
+    (t.Repr x → t.conv x = x) ∧ t.Repr (t.conv x) ∧ ∃ k : Int, t.conv x = x + k * 2 ^ t.bits :=
+  ⟨IntTy.conv_of_repr t hb x, IntTy.conv_repr t hb x, IntTy.conv_congr t x⟩
+
+/-- `int` and wider: `a op= b` is `a op b` (same value, same undefined cases), `++a` is `a + 1` -/
+theorem int_assign_wide (t : IntTy) (hb : 0 < t.bits) (hw : ¬ t.bits < 32) (a b : Int) :
+    t.addAssign a b = t.add a b ∧ t.subAssign a b = t.sub a b ∧ t.mulAssign a b = t.mul a b ∧
+    t.inc a = t.add a 1 ∧ t.dec a = t.sub a 1 := by
+  have hp := IntTy.promoted_wide t hw
+  refine ⟨?_, ?_, ?_, ?_, ?_⟩ <;>
+    simp only [IntTy.inc, IntTy.dec, IntTy.addAssign, IntTy.subAssign, IntTy.mulAssign, hp, IntTy.add, IntTy.sub, IntTy.mul] <;>
+    exact IntTy.arith_conv_wide t hb _
+
+/-- for `int` and wider types (no integral promotion) `l op= r` leaves in `l` exactly what `l op r` returns -/
+theorem transparent_assign_is_binary_wide (t : IntTy) (hb : 0 < t.bits) (hw : ¬ t.bits < 32) (l r : ST) :
+    ST.addAssign t l r = (ST.add t l r).map (fun s => (s, s)) ∧
+    ST.subAssign t l r = (ST.sub t l r).map (fun s => (s, s)) ∧
+    ST.mulAssign t l r = (ST.mul t l r).map (fun s => (s, s)) ∧
+    ST.andAssign t l r = (ST.band t l r, ST.band t l r) ∧
+    ST.orAssign t l r = (ST.bor t l r, ST.bor t l r) ∧
+    ST.xorAssign t l r = (ST.bxor t l r, ST.bxor t l r) := by
+  have hp := IntTy.promoted_wide t hw
+  obtain ⟨h1, h2, h3, -, -⟩ := int_assign_wide t hb hw l.get r.get
+  refine ⟨?_, ?_, ?_, ?_, ?_, ?_⟩
+  · unfold ST.addAssign ST.add; rw [h1]; cases t.add l.get r.get <;> rfl
+  · unfold ST.subAssign ST.sub; rw [h2]; cases t.sub l.get r.get <;> rfl
+  · unfold ST.mulAssign ST.mul; rw [h3]; cases t.mul l.get r.get <;> rfl
+  · unfold ST.andAssign ST.band IntTy.andAssign; rw [hp]; unfold IntTy.band; rw [IntTy.bitwise_conv_wide t hb]
+  · unfold ST.orAssign ST.bor IntTy.orAssign; rw [hp]; unfold IntTy.bor; rw [IntTy.bitwise_conv_wide t hb]
+  · unfold ST.xorAssign ST.bxor IntTy.xorAssign; rw [hp]; unfold IntTy.bxor; rw [IntTy.bitwise_conv_wide t hb]
+
+/-- types of at most 16 bits: `+=`, `-=`, `++`, `--` are computed in `int`, never overflow, and wrap modulo 2^bits
+(also for the signed types: `short x = 32767; ++x` is `-32768`, not undefined) -/
+theorem int_assign_narrow (t : IntTy) (h16 : t.bits ≤ 16) (a b : Int) (ha : t.Repr a) (hb : t.Repr b) :
+    t.addAssign a b = .ok (t.conv (a + b)) ∧ t.subAssign a b = .ok (t.conv (a - b)) ∧
+    t.inc a = .ok (t.conv (a + 1)) ∧ t.dec a = .ok (t.conv (a - 1)) := by
+  have hn : t.bits < 32 := by omega
+  have hp := IntTy.promoted_narrow t hn
+  have h1 := IntTy.repr_narrow_bound t h16 a ha
+  have h2 := IntTy.repr_narrow_bound t h16 b hb
+  refine ⟨?_, ?_, ?_, ?_⟩ <;>
+    simp only [IntTy.inc, IntTy.dec, IntTy.addAssign, IntTy.subAssign, hp, IntTy.add, IntTy.sub]
+  · rw [IntTy.i32_arith_ok _ (by omega)]; rfl
+  · rw [IntTy.i32_arith_ok _ (by omega)]; rfl
+  · rw [IntTy.i32_arith_ok _ (by omega)]; rfl
+  · rw [IntTy.i32_arith_ok _ (by omega)]; rfl
+
+/-- `*=` on a narrow type multiplies in `int`: the wrapped product when it fits into `int`, undefined otherwise
+(`unsigned short` 65535 * 65535) -/
+theorem int_mul_assign_narrow (t : IntTy) (hn : t.bits < 32) (a b : Int) :
+    (IntTy.i32.Repr (a * b) → t.mulAssign a b = .ok (t.conv (a * b))) ∧
+    (¬ IntTy.i32.Repr (a * b) → t.mulAssign a b = .error .signedOverflow) := by
+  have hp := IntTy.promoted_narrow t hn
+  constructor <;> intro h <;> simp only [IntTy.mulAssign, hp, IntTy.mul]
+  · rw [IntTy.arith_signed_ok _ rfl _ h]; rfl
+  · rw [IntTy.arith_signed_overflow _ rfl _ h]; rfl
+
+/-- … which cannot happen for the signed narrow types and for `unsigned char` -/
+theorem int_mul_assign_narrow_defined (t : IntTy) (h16 : t.bits ≤ 16) (hs : t.signed = true ∨ t.bits ≤ 15) (a b : Int)
+    (ha : t.Repr a) (hb : t.Repr b) : t.mulAssign a b = .ok (t.conv (a * b)) := by
+  apply (int_mul_assign_narrow t (by omega) a b).1
+  rw [IntTy.i32_repr_iff]
+  have key : -32768 ≤ a ∧ a ≤ 32768 ∧ -32768 ≤ b ∧ b ≤ 32768 := by
+    have hp := IntTy.two_pow_pos (t.bits - 1)
+    have hq := IntTy.two_pow_pos t.bits
+    have e15 : (2 : Int) ^ 15 = 32768 := by decide
+    unfold IntTy.Repr IntTy.lo IntTy.hi at ha hb
+    rcases hs with hs | hs
+    · have h2 : (2 : Int) ^ (t.bits - 1) ≤ 2 ^ 15 := by
+        have : (2 : Nat) ^ (t.bits - 1) ≤ 2 ^ 15 := Nat.pow_le_pow_right (by decide) (by omega)
+        exact_mod_cast this
+      simp only [hs, if_true] at ha hb
+      omega
+    · have h2 : (2 : Int) ^ t.bits ≤ 2 ^ 15 := by
+        have : (2 : Nat) ^ t.bits ≤ 2 ^ 15 := Nat.pow_le_pow_right (by decide) hs
+        exact_mod_cast this
+      have h3 : (2 : Int) ^ (t.bits - 1) ≤ 2 ^ 15 := by
+        have : (2 : Nat) ^ (t.bits - 1) ≤ 2 ^ 15 := Nat.pow_le_pow_right (by decide) (by omega)
+        exact_mod_cast this
+      cases hsg : t.signed <;> simp only [hsg, if_true, Bool.false_eq_true, if_false] at ha hb <;> omega
+  have := IntTy.mul_bound a b 32768 ⟨key.1, key.2.1⟩ ⟨key.2.2.1, key.2.2.2⟩
+  omega
 
 /-! ### strong_typedef: comparison coherence -/
 
@@ -193,6 +318,45 @@ theorem variant_compare_eq (eq : α → α → Bool) (a b : Var α) : Var.compar
   unfold Var.compare Var.eq
   by_cases h : a.idx = b.idx <;> simp [h]
 
+/-! ### tuples, variants and records whose positions have types of their own (nest `Pair` / `SumV` for any arity) -/
+/-- `tuple<A, B>` (and, nested, any arity): `==` holds exactly when every position is equal -/
+theorem hetero_tuple_eq_iff_components {eqA : α → α → Bool} {eqB : β → β → Bool} (hA : LawfulEq eqA) (hB : LawfulEq eqB)
+    (a b : α × β) : Pair.eq eqA eqB a b = true ↔ a = b := Pair.eq_iff hA hB a b
+/-- the three-position instance used by the harness, `tuple<int, long, short>` -/
+theorem hetero_tuple3_eq_iff_components {γ : Type} {eqA : α → α → Bool} {eqB : β → β → Bool} {eqC : γ → γ → Bool}
+    (hA : LawfulEq eqA) (hB : LawfulEq eqB) (hC : LawfulEq eqC) (a b : α × β × γ) :
+    Pair.eq eqA (Pair.eq eqB eqC) a b = true ↔ a = b := Pair.eq_iff hA (Pair.eq_iff hB hC) a b
+theorem hetero_tuple_eq_equivalence {eqA : α → α → Bool} {eqB : β → β → Bool} (hA : LawfulEq eqA) (hB : LawfulEq eqB) :
+    IsEquivalence (Pair.eq eqA eqB) := LawfulEq.isEquivalence (Pair.eq_iff hA hB)
+theorem hetero_tuple_ne_eq_not (eqA : α → α → Bool) (eqB : β → β → Bool) (a b : α × β) :
+    Pair.ne eqA eqB a b = !Pair.eq eqA eqB a b := rfl
+/-- `variant<A, B>` (nested: any number of alternatives, each with its own `==` / `<`) -/
+theorem hetero_variant_eq_iff_components {eqA : α → α → Bool} {eqB : β → β → Bool} (hA : LawfulEq eqA) (hB : LawfulEq eqB)
+    (a b : Sum α β) : SumV.eq eqA eqB a b = true ↔ a = b := SumV.eq_iff hA hB a b
+theorem hetero_variant3_eq_iff_components {γ : Type} {eqA : α → α → Bool} {eqB : β → β → Bool} {eqC : γ → γ → Bool}
+    (hA : LawfulEq eqA) (hB : LawfulEq eqB) (hC : LawfulEq eqC) (a b : Sum α (Sum β γ)) :
+    SumV.eq eqA (SumV.eq eqB eqC) a b = true ↔ a = b := SumV.eq_iff hA (SumV.eq_iff hB hC) a b
+theorem hetero_variant_eq_equivalence {eqA : α → α → Bool} {eqB : β → β → Bool} (hA : LawfulEq eqA) (hB : LawfulEq eqB) :
+    IsEquivalence (SumV.eq eqA eqB) := LawfulEq.isEquivalence (SumV.eq_iff hA hB)
+theorem hetero_variant_ne_eq_not (eqA : α → α → Bool) (eqB : β → β → Bool) (a b : Sum α β) :
+    SumV.ne eqA eqB a b = !SumV.eq eqA eqB a b := rfl
+theorem hetero_variant_lt_strict_weak {ltA : α → α → Bool} {ltB : β → β → Bool} (hA : StrictTotal ltA)
+    (hB : StrictTotal ltB) : StrictWeak (SumV.lt ltA ltB) := (SumV.lt_strictTotal hA hB).strictWeak
+theorem hetero_variant3_lt_strict_weak {γ : Type} {ltA : α → α → Bool} {ltB : β → β → Bool} {ltC : γ → γ → Bool}
+    (hA : StrictTotal ltA) (hB : StrictTotal ltB) (hC : StrictTotal ltC) :
+    StrictWeak (SumV.lt ltA (SumV.lt ltB ltC)) := (SumV.lt_strictTotal hA (SumV.lt_strictTotal hB hC)).strictWeak
+theorem hetero_variant_lt_compatible_eq {eqA ltA : α → α → Bool} {eqB ltB : β → β → Bool} (hA : LawfulEq eqA)
+    (hB : LawfulEq eqB) (hlA : StrictTotal ltA) (hlB : StrictTotal ltB) :
+    Compatible (fun a b => SumV.eq eqA eqB a b = true) (SumV.lt ltA ltB) :=
+  compatible_of (SumV.eq_iff hA hB) (SumV.lt_strictTotal hlA hlB)
+/-- `variant::compare` with the `==` of each alternative is `==` of the variants -/
+theorem hetero_variant_compare_eq (eqA : α → α → Bool) (eqB : β → β → Bool) (a b : Sum α β) :
+    SumV.compare eqA eqB a b = SumV.eq eqA eqB a b := SumV.compare_eq eqA eqB a b
+/-- a record against the same record type with its elements in another order: equal exactly when every label agrees -/
+theorem hetero_record_eq_permuted {eqA : α → α → Bool} {eqB : β → β → Bool} (hA : LawfulEq eqA) (hB : LawfulEq eqB)
+    (r1 : α × β) (r2 : β × α) : Rec2.eqPermuted eqA eqB r1 r2 = true ↔ (r1.1 = r2.2 ∧ r1.2 = r2.1) := by
+  simp [Rec2.eqPermuted, hA _ _, hB _ _]
+
 /-! ### tuple, array, enum array, math::vector, math::dim, math::matrix (index-wise `==`) -/
 theorem array_eq_iff_components {n : Nat} {eq : α → α → Bool} (he : LawfulEq eq) (a b : Vector α n) :
     equalV eq a b = true ↔ a = b := equalV_iff he a b
@@ -255,16 +419,23 @@ theorem record_not_equivalent {eq : α → α → Bool} (r1 r2 : Rec α) (hq : R
     Rec.eq eq r1 r2 = none := Rec.eq_none r1 r2 hq
 
 /-! ### box, sphere -/
-theorem box_eq_iff_components {n : Nat} {eq : α → α → Bool} (he : LawfulEq eq) (a b : Box α n) :
-    Box.eq eq a b = true ↔ a = b := Box.eq_iff he a b
-theorem box_eq_equivalence {n : Nat} {eq : α → α → Bool} (he : LawfulEq eq) : IsEquivalence (Box.eq (n := n) eq) :=
-  LawfulEq.isEquivalence (Box.eq_iff he)
-theorem box_ne_eq_not {n : Nat} (eq : α → α → Bool) (a b : Box α n) : Box.ne eq a b = !Box.eq eq a b := rfl
-theorem box_lt_strict_weak {n : Nat} {lt : α → α → Bool} (h : StrictTotal lt) : StrictWeak (Box.lt (n := n) lt) :=
-  (Box.lt_strictTotal h).strictWeak
-theorem box_lt_compatible_eq {n : Nat} {eq lt : α → α → Bool} (he : LawfulEq eq) (h : StrictTotal lt) :
-    Compatible (fun a b : Box α n => Box.eq eq a b = true) (Box.lt lt) :=
-  compatible_of (Box.eq_iff he) (Box.lt_strictTotal h)
+/-- the class stores `min_` and `max_`; `==` compares `pos()` = `min_` and `size()` = `max_ - min_`.  When the
+coordinate type's `-` can be undone (integers, also modulo 2^n) this is equality of the two stored corners, i.e. of
+every observable component -/
+theorem box_eq_iff_components {n : Nat} {sub : α → α → α} {eq : α → α → Bool} (hs : SubCancel sub) (he : LawfulEq eq)
+    (a b : Box α n) : Box.eq sub eq a b = true ↔ a = b := Box.eq_iff hs he a b
+theorem box_eq_equivalence {n : Nat} {sub : α → α → α} {eq : α → α → Bool} (hs : SubCancel sub) (he : LawfulEq eq) :
+    IsEquivalence (Box.eq (n := n) sub eq) := LawfulEq.isEquivalence (Box.eq_iff hs he)
+theorem box_ne_eq_not {n : Nat} (sub : α → α → α) (eq : α → α → Bool) (a b : Box α n) :
+    Box.ne sub eq a b = !Box.eq sub eq a b := rfl
+theorem box_lt_strict_weak {n : Nat} {sub : α → α → α} {lt : α → α → Bool} (hs : SubCancel sub) (h : StrictTotal lt) :
+    StrictWeak (Box.lt (n := n) sub lt) := (Box.lt_strictTotal hs h).strictWeak
+theorem box_lt_compatible_eq {n : Nat} {sub : α → α → α} {eq lt : α → α → Bool} (hs : SubCancel sub) (he : LawfulEq eq)
+    (h : StrictTotal lt) : Compatible (fun a b : Box α n => Box.eq sub eq a b = true) (Box.lt sub lt) :=
+  compatible_of (Box.eq_iff hs he) (Box.lt_strictTotal hs h)
+/-- the `(pos, size)` constructor: `pos()` and `size()` give the arguments back -/
+theorem box_pos_size_round_trip {n : Nat} {add sub : α → α → α} (hadd : ∀ p s, sub (add p s) p = s) (p s : Vector α n) :
+    (Box.ofPosSize add p s).pos = p ∧ (Box.ofPosSize add p s).size sub = s := Box.ofPosSize_spec hadd p s
 theorem sphere_eq_iff_components {n : Nat} {eq : α → α → Bool} (he : LawfulEq eq) (a b : Sphere α n) :
     Sphere.eq eq a b = true ↔ a = b := Sphere.eq_iff he a b
 theorem sphere_eq_equivalence {n : Nat} {eq : α → α → Bool} (he : LawfulEq eq) : IsEquivalence (Sphere.eq (n := n) eq) :=
@@ -360,6 +531,43 @@ theorem recursive_eq_iff_components {eq : α → α → Bool} (he : LawfulEq eq)
     Recursive.eq eq a b = true ↔ a = b := he a b
 theorem recursive_ne_eq_not (eq : α → α → Bool) (a b : α) : Recursive.ne eq a b = !Recursive.eq eq a b := rfl
 
+/-! ### recursive exposes exactly the wrapped object (constructors, assignments, `get`) -/
+/-- `get` of a freshly constructed `recursive` is the value it was constructed from -/
+theorem recursive_get_exposes (v : α) : (RecCell.make v).get = .ok v := rfl
+/-- the copy constructor makes a new object: writing through the copy leaves the original alone -/
+theorem recursive_copy_independent (v w : α) :
+    ((RecCell.make v).copy >>= fun c => c.set w >>= RecCell.get) = .ok w ∧ (RecCell.make v).get = .ok v := ⟨rfl, rfl⟩
+/-- copy assignment: afterwards the target shows the source's value (whatever it held), the source is unchanged;
+assigning an object to itself changes nothing -/
+theorem recursive_assign (self other : RecCell α) (v : α) (h : other.get = .ok v) :
+    (RecCell.assign self other false >>= RecCell.get) = .ok v ∧ RecCell.assign self self true = .ok self := by
+  constructor
+  · unfold RecCell.assign
+    simp only [Bool.false_eq_true, if_false]
+    rw [h]; rfl
+  · rfl
+/-- moving hands the object over; the moved-from wrapper must not be read any more -/
+theorem recursive_move (r : RecCell α) : r.move.1.get = r.get ∧ r.move.2.get = .error .emptyDeref := ⟨rfl, rfl⟩
+/-- `*p` of a unique_ptr is the object it owns; moving and `release_ownership` hand exactly that object on and leave null -/
+theorem unique_ptr_get_exposes (mem : Nat → α) (p : Nat) :
+    UPtr.get mem ⟨some p⟩ = .ok (mem p) ∧ (UPtr.move ⟨some p⟩).1.get mem = .ok (mem p) ∧
+    (UPtr.move ⟨some p⟩).2.get mem = .error .emptyDeref ∧ UPtr.release ⟨some p⟩ = (some p, ⟨none⟩) := ⟨rfl, rfl, rfl, rfl⟩
+/-- `*p` of a shared_ptr is the object at the stored pointer — the same for every owner -/
+theorem shared_ptr_get_exposes (mem : Nat → α) (p o₁ o₂ : Nat) : SPtr.get mem ⟨p, o₁⟩ = SPtr.get mem ⟨p, o₂⟩ := rfl
+
+/-! ### unit, iterator::range -/
+theorem unit_eq_iff_components (a b : Unit) : UnitT.eq a b = true ↔ a = b := by simp [UnitT.eq]
+theorem unit_eq_equivalence : IsEquivalence UnitT.eq := ⟨fun _ => rfl, fun _ _ _ => rfl, fun _ _ _ _ _ => rfl⟩
+theorem unit_ne_eq_not (a b : Unit) : UnitT.ne a b = !UnitT.eq a b := rfl
+/-- two ranges are equal exactly when they begin and end at the same iterators -/
+theorem iterator_range_eq_iff_components {eqI : α → α → Bool} (he : LawfulEq eqI) (a b : α × α) :
+    IterRange.eq eqI a b = true ↔ a = b := by
+  cases a; cases b
+  simp [IterRange.eq, he _ _]
+theorem iterator_range_eq_equivalence {eqI : α → α → Bool} (he : LawfulEq eqI) : IsEquivalence (IterRange.eq eqI) :=
+  LawfulEq.isEquivalence (iterator_range_eq_iff_components he)
+theorem iterator_range_ne_eq_not (eqI : α → α → Bool) (a b : α × α) : IterRange.ne eqI a b = !IterRange.eq eqI a b := rfl
+
 /-! ### reference -/
 /-- two references are equal exactly when they designate the same object -/
 theorem reference_eq_iff_components (a b : Ref) : Ref.eq a b = true ↔ a = b := Ref.eq_iff a b
@@ -409,6 +617,19 @@ theorem bitfield_hash_eq_of_eq {w : Nat} (hc : Nat → Nat → Nat) (hwd : BitVe
   have : a = b := by simpa [C10.eq] using h
   rw [this]
 
+/-! ### the theorems compose: a nested value type inherits the laws from its components -/
+/-- `optional<variant<optional<T>, vector<T, n>>>` (the nested type of the harness): `==` is equality, `<` a strict weak
+order compatible with it — by instantiating the component hypotheses of each level with the theorem of the level below -/
+theorem nested_composition {n : Nat} {eq lt : α → α → Bool} (he : LawfulEq eq) (hl : StrictTotal lt) :
+    LawfulEq (Opt.eq (SumV.eq (Opt.eq eq) (MVec.eq (n := n) eq))) ∧
+    StrictWeak (Opt.lt (SumV.lt (Opt.lt lt) (MVec.lt (n := n) lt))) ∧
+    Compatible (fun a b => Opt.eq (SumV.eq (Opt.eq eq) (MVec.eq (n := n) eq)) a b = true)
+      (Opt.lt (SumV.lt (Opt.lt lt) (MVec.lt (n := n) lt))) := by
+  have e1 : LawfulEq (SumV.eq (Opt.eq eq) (MVec.eq (n := n) eq)) := SumV.eq_iff (Opt.eq_iff he) (equalV_iff he)
+  have l1 : StrictTotal (SumV.lt (Opt.lt lt) (MVec.lt (n := n) lt)) :=
+    SumV.lt_strictTotal (Opt.lt_strictTotal hl) (arrayLess_strictTotal hl)
+  exact ⟨Opt.eq_iff e1, (Opt.lt_strictTotal l1).strictWeak, compatible_of (Opt.eq_iff e1) (Opt.lt_strictTotal l1)⟩
+
 /-! ## Non-vacuity: the component hypotheses hold for `int`; concrete values on every interesting branch -/
 
 example : LawfulEq (fun a b : Int => a == b) := fun a b => by simp
@@ -416,11 +637,20 @@ example : StrictTotal (fun a b : Int => decide (a < b)) where
   irrefl a := by simp
   trans a b c := by simp only [decide_eq_true_eq]; omega
   total a b := by simp only [decide_eq_true_eq]; omega
+-- integer subtraction can be undone (the hypothesis of the box theorems)
+example : SubCancel (fun a b : Int => a - b) := fun a b c h => by simp only at h; omega
+example : ∀ p s : Int, (p + s) - p = s := by intro p s; omega
 -- signed overflow is a fault, unsigned wraps
 example : IntTy.i32.add 2147483647 1 = .error .signedOverflow := by rfl
 example : IntTy.u32.add 4294967295 1 = .ok 0 := by rfl
 example : IntTy.u32.neg 1 = .ok 4294967295 := by rfl
 example : ST.postInc .i32 ⟨5⟩ = .ok (⟨6⟩, ⟨5⟩) := by rfl
+-- integral promotion: short 32767 + 1 wraps (no fault), unsigned short 65535 * 65535 overflows int, 255 * 255 does not
+example : ST.preInc .i16 ⟨32767⟩ = .ok (⟨-32768⟩, ⟨-32768⟩) := by decide
+example : IntTy.u16.mulAssign 65535 65535 = .error .signedOverflow := by decide
+example : IntTy.u16.mulAssign 255 255 = .ok 65025 := by decide
+example : IntTy.i8.mulAssign 127 2 = .ok (-2) := by decide
+example : IntTy.u8.addAssign 200 200 = .ok 144 := by decide
 -- optional: nothing < just 0; just 1 is not < just 0
 example : Opt.lt (fun a b : Int => decide (a < b)) none (some 0) = true ∧
     Opt.lt (fun a b : Int => decide (a < b)) (some 1) (some 0) = false := by decide
